@@ -38,7 +38,10 @@ BUDGET = {"quick": 240, "thorough": 3000}
 
 
 def bounds(tier):
-    return {"line_shapes": len(shapes(0)), "sequence_length": 4 if tier == "quick" else 5,
+    return {"line_shapes": len(shapes(0)),
+            "substitution_shapes": "%d further headings / trailers / change lines used by the mutation passes (substituted for and inserted next to the lines of the well-formed "
+                                   "changelogs): keys whose lower() differs in length, odd urgencies and versions, '=' and ';' inside a setting, a key repeated verbatim / under another "
+                                   "capitalisation / three times, trailers with several '<' '>'" % len(extra_shapes(0)), "sequence_length": 4 if tier == "quick" else 5,
             "mutations_of_wellformed": "single edits on 3 changelogs + pairs on %s" % ("1" if tier == "quick" else "3"),
             "edit_history_depth": 2 if tier == "quick" else 3, "edit_ops": len(OPS),
             "input_forms": "sequences of length <= %d also as bytes, lists/tuples/generators of lines, StringIO, BytesIO, bytes lines: same warnings/strictness/blocks/text" % FORMS_MAXLEN[tier],
